@@ -40,12 +40,12 @@ ORDER_CLAUSES = ["ExactlyOnceNoDuplicate", "OnlyEmitted", "InEmissionOrder", "De
 ORDER_INVS = [f"Inv_{c}" for c in ORDER_CLAUSES] + ["NoWedge", "NothingLost"]
 
 
-def order_mc(ctx: Ctx, wd, max_steps: int, pres: str, name: str):
+def order_mc(ctx: Ctx, wd, max_steps: int, pres: str, designs: str, name: str):
     wrap_module(wd, "LogOrder", "MC_LogOrder", {
         "Emit": 'Finished => PrintT("@@J@@" \\o ToJson([script |-> script, design |-> design, em |-> em, rv |-> rv]))'},
         extends="TLC, Json")
     cfg = render_cfg(constants={"MaxSteps": max_steps, "Pres": Raw(pres),
-                                "Designs": Raw('{"intended", "found", "onlyE", "onlyT"}')}, invariants=ORDER_INVS + ["Emit"])
+                                "Designs": Raw(designs)}, invariants=ORDER_INVS + ["Emit"])
     r = run_tlc(wd, "MC_LogOrder", cfg, timeout=1500, cfg_name=f"lo_{max_steps}.cfg")
     ctx.add_tlc(name, r)
     return r
@@ -67,10 +67,11 @@ def order_key(sc: dict) -> str:
 
 def part_order(ctx: Ctx, wd, worlds) -> None:
     quick = ctx.quick
-    max_steps, pres = (2, "{0, 2}") if quick else (3, "{0, 1, 2}")
+    max_steps, pres = (2, "{0, 2}") if quick else (3, "{0, 2}")     # 0 or 2 messages per slot (2 exercises their order)
     # one run: the clauses are invariants of the intended design; the designs "as found" / partially repaired are explored
     # side by side and only contribute their histories (what a real execution is compared with for drift)
-    r = order_mc(ctx, wd, max_steps, pres, f"LogOrder MaxSteps={max_steps} Pres={pres} (clauses on design=intended)")
+    designs = '{"intended", "found", "onlyE", "onlyT"}'
+    r = order_mc(ctx, wd, max_steps, pres, designs, f"LogOrder MaxSteps={max_steps} Pres={pres} (clauses on design=intended)")
     require_ok(r, "LogOrder intended design")
     cases: dict = {}
     for j in r.json_lines:
@@ -82,9 +83,10 @@ def part_order(ctx: Ctx, wd, worlds) -> None:
     ctx.extra["scripts_where_design_as_found_differs_from_intended"] = sum(
         1 for c in cases.values() if c["designs"]["found"] != c["designs"]["intended"])
     keys = sorted(cases)
-    if not quick and len(keys) > 9000:        # thorough: full model, seeded sample of the replays
-        keep = set(ctx.rng.sample(keys, 9000))
-        ctx.extra["order_scripts_not_replayed_this_run"] = len(keys) - 9000
+    budget = 1000 if quick else 9000          # the model is exhaustive; the replays are a seeded sample of its scripts
+    if len(keys) > budget:
+        keep = set(ctx.rng.sample(keys, budget))
+        ctx.extra["order_scripts_not_replayed_this_run"] = len(keys) - budget
         keys = [k for k in keys if k in keep]
     ctx.extra["order_scripts_enumerated"] = len(cases)
     obs, metas = [], []
@@ -96,10 +98,10 @@ def part_order(ctx: Ctx, wd, worlds) -> None:
         ctx.case(["order", k], sample={"part": "order", "script": sc, "emitted": _c(res["em"]), "client_saw": _c(res["rv"]),
                                        "model_client_saw": _c(cases[k]["designs"]["intended"]["rv"])} if i % 1201 == 7 else None)
         obs.append({"case": {"k": k}, "obs": {"em": res["em"], "rv": res["rv"], "expects": list(cases[k]["designs"].values())}})
-        metas.append((sc, res, cases[k]["designs"]["intended"]))
+        metas.append((sc, res, cases[k]["designs"]["intended"], prog, specs))
     bad = U.judge(ctx, "wire", "LogOrderClauses", obs)
     for idx, clauses in bad:
-        sc, res, exp = metas[idx]
+        sc, res, exp, prog, specs = metas[idx]
         real = [c for c in clauses if c != "Drift"]
         if not real:
             ctx.drift.append({"part": "order", "script": sc, "real_em": _c(res["em"]), "real_rv": _c(res["rv"]),
@@ -108,7 +110,7 @@ def part_order(ctx: Ctx, wd, worlds) -> None:
         for cl in real:
             ctx.violation(cl, {"part": "order", "transport": sc["tr"], "kind": sc["kind"], "cause": order_cause(sc)},
                           {"script": sc, "emitted": _c(res["em"]), "client_saw": _c(res["rv"]), "model_client_saw": _c(exp["rv"]),
-                           "notes": res["notes"][:4]})
+                           "notes": res["notes"][:4], "prog": prog, "specs": specs})
 
 
 def part_content(ctx: Ctx, worlds) -> None:
@@ -116,8 +118,8 @@ def part_content(ctx: Ctx, worlds) -> None:
     sel = []
     for i, cj in enumerate(sorted(cases, key=lambda c: str(sorted(c["case"].items())))):
         c = cj["case"]
-        # quick: every (text, extra, emission point, transport) with the level rotating; thorough: the full product
-        if ctx.quick and (hash_small(c) % 5) != G.LEVELS.index(c["lvl"]):
+        # quick: every (extra, emission point, transport) with two text classes and the level rotating; thorough: the product
+        if ctx.quick and ((hash_small(c) % 5) != G.LEVELS.index(c["lvl"]) or TXT_ORDER.index(c["txt"]) % 3 != hash_small({**c, "txt": ""}) % 3):
             continue
         sel.append(c)
     obs, metas = [], []
@@ -136,6 +138,9 @@ def part_content(ctx: Ctx, worlds) -> None:
     ctx.extra["content_cases_executed"] = len(sel)
 
 
+TXT_ORDER = ["ascii", "empty", "unicode", "multiline", "jsonish", "long"]
+
+
 def hash_small(c: dict) -> int:
     return sum(ord(ch) for ch in c["txt"] + c["extra"] + c["at"] + c["tr"])
 
@@ -147,25 +152,49 @@ def part_peer(ctx: Ctx) -> None:
     n = 0
     for cj in sorted(cases, key=lambda c: str(sorted(c["case"].items()))):
         c = cj["case"]
-        variants = G.peer_variants(c, full=not ctx.quick)
-        for vi, v in enumerate(variants):
+        allv = G.peer_variants(c, full=not ctx.quick)
+        variants = [(n % len(allv), allv[n % len(allv)])] if ctx.quick else list(enumerate(allv))
+        for vi, v in variants:
             n += 1
             real_pipe = c["tr"] == "pipe" and vi == 0 and (not ctx.quick or n % 4 == 0)
             o = G.run_peer_case(c, v, 1 + n % 1900, real_pipe=real_pipe)
             ctx.case(["peer", sorted(c.items()), vi], sample={"part": "peer", "case": c, "level": repr(v["level"]), "message": repr(v["msg"]),
                                                                 "extra": repr((v["extra"] or b"")[:60]), "observed": _pub(o)} if n % 1499 == 5 else None)
             obs.append({"case": c, "obs": _pub(o)})
-            metas.append((c, v, o))
+            metas.append((c, v, o, vi))
     bad = U.judge(ctx, "wire", "LogPeer", obs)
     for idx, clauses in bad:
-        c, v, o = metas[idx]
+        c, v, o, vi = metas[idx]
         for cl in clauses:
             ctx.violation(cl, {"part": "peer", "transport": c["tr"], "where": c["where"], "bad_lvl": c["lvl"] == "unknown",
                                "bad_msg": c["msg"] == "nonutf8",
                                "bad_extra": c["extra"] if c["extra"] not in ("absent", "obj_plain", "obj_empty", "obj_nonstr", "invalid", "empty") else "ok"},
                           {"case": c, "level": repr(v["level"]), "message": repr(v["msg"]), "extra": repr((v["extra"] or b"")[:80]),
+                           "variant_index": vi, "variant_full": not ctx.quick,
                            "observed": _pub(o), "exception": o["_exc"], "notes": o["_notes"]})
     ctx.extra["peer_cases_enumerated"] = len(cases)
+
+
+def replay(ctx: Ctx, rec: dict, worlds) -> None:
+    """./check C08 --replay F: re-execute the recorded case on the real code and let TLC judge it again."""
+    d, part = rec["detail"], rec["sig"]["part"]
+    if part == "order":
+        sc = d["script"]
+        specs = {int(k): v for k, v in d["specs"].items()}
+        res = G.run_order_script(worlds[sc["tr"]], sc, 7, d["prog"], specs)
+        obs = [{"case": {"k": "replay"}, "obs": {"em": res["em"], "rv": res["rv"], "expects": [{"em": res["em"], "rv": res["rv"]}]}}]
+        module, shown = "LogOrderClauses", {"emitted": _c(res["em"]), "client_saw": _c(res["rv"])}
+    elif part == "content":
+        o = G.run_content_case(worlds[d["case"]["tr"]], d["case"], 7)
+        obs, module, shown = [{"case": d["case"], "obs": _pub(o)}], "LogContent", {"observed": _pub(o), "notes": o["_notes"]}
+    else:
+        v = G.peer_variants(d["case"], d["variant_full"])[d["variant_index"]]
+        o = G.run_peer_case(d["case"], v, 7)
+        obs, module, shown = [{"case": d["case"], "obs": _pub(o)}], "LogPeer", {"observed": _pub(o), "exception": o["_exc"]}
+    ctx.case(["replay", part], sample=shown)
+    for _, clauses in U.judge(ctx, "wire", module, obs):
+        for cl in clauses:
+            ctx.violation(cl, rec["sig"], {**d, **shown})
 
 
 def run(ctx: Ctx) -> None:
@@ -173,6 +202,8 @@ def run(ctx: Ctx) -> None:
     wd = ctx.wd.stage("wire")
     for m in ("LogOrderClauses", "LogOrder", "LogContent", "LogPeer"):
         sany(wd, m)
+    if getattr(ctx, "replay_record", None):
+        return replay(ctx, ctx.replay_record, {"pipe": W.PipeWorld(), "http": W.HttpWorld()})
     ctx.rule = ("case = (a) one call script enumerated by TLC from LogOrder!Scripts executed on a real session, "
                 "(a') one LogContent case emitted by a real method, (b) one concrete log batch of a LogPeer case written "
                 "by a scripted peer and read by the real client; non-trivial = distinct (part, case, concrete variant)")
